@@ -152,8 +152,11 @@ def patch_library_clock():
 
 patch_library_clock()
 
-class HangDetected(Exception):
-    pass
+class HangDetected(BaseException):
+    """(BaseException: the library's own `except Exception` handlers must not swallow it)"""
+
+
+HANGS: list = []        # every time a hang guard fired in this process (an asyncio task may swallow the exception itself)
 
 
 @contextlib.contextmanager
@@ -163,6 +166,7 @@ def hang_guard(seconds: float):
     import signal
 
     def on_alarm(signum, frame):
+        HANGS.append(f"no return after {seconds} s of real time")
         raise HangDetected(f"no return after {seconds} s")
     old = signal.signal(signal.SIGALRM, on_alarm)
     old_timer = signal.setitimer(signal.ITIMER_REAL, seconds)
